@@ -9,11 +9,12 @@ import random
 
 PROPERTY = "C11"
 RULE = (
-    "case kinds: (basics) n x t x batch x interleaved x covariance representation; (ctor) from_batch_mvn over every valid task_dim / "
-    "from_independent_mvns / from_repeated_mvn; (index) every pair (point index, task index) from the per-dimension candidate sets "
-    "{ints +/-, slices over start/stop in {None,0,1,2,-1,-2,n,n+5} x step in {None,1,2,3}, index tensors sorted/unsorted/repeated}, "
-    "with batch ints/slices/tensors and Ellipsis placements, for shapes n!=t; distinct = distinct (shape, layout, index kinds) cell; "
-    "non-trivial iff the index selects >=1 and < all (point,task) pairs, or the case is a basics/ctor case with n*t>=2"
+    'case kinds: (basics) n x t x batch x interleaved x covariance representation; (ctor) from_batch_mvn over every valid task_dim / '
+    'from_independent_mvns / from_repeated_mvn, each over {dense, diagonal, root, mixed} member covariances; (index) every pair (point index, '
+    'task index) from the per-dimension candidate sets {ints +/-, slices over start/stop in {None,0,1,2,-1,-2,n,n+5} x step in {None,1,2,3}, '
+    'index tensors sorted/unsorted/repeated}, with batch ints/slices/tensors and Ellipsis placements, for shapes n!=t; distinct = distinct '
+    '(shape, layout, index kinds) cell; non-trivial iff the index selects >=1 and < all (point,task) pairs, or the case is a basics/ctor case '
+    'with n*t>=2'
 )
 REQUIRED = ["index_mean", "index_covariance", "log_prob", "variance", "rsample_LLt", "to_data_independent", "from_batch_mvn", "from_independent_mvns", "from_repeated_mvn"]
 ASSUMPTIONS = ["covariances are random dense SPD matrices (condition number < 1e3); representation dense tensor or DenseLinearOperator/Kronecker"]
